@@ -587,7 +587,7 @@ theorem flatMap_range_length {γ : Type} (m n : Nat) (e : Nat → Nat → γ) :
   | succ m ih => rw [List.range_succ, List.flatMap_append, List.length_append, ih]; simp [Nat.succ_mul]
 
 /-- C-order flattening of an `m × n` matrix: entry `(a, b)` sits at offset `a * n + b` -/
-theorem flatMap_range_getElem? {γ : Type} (m n : Nat) (e : Nat → Nat → γ) (a b : Nat) (ha : a < m)
+theorem flatMap_range_getElem_opt {γ : Type} (m n : Nat) (e : Nat → Nat → γ) (a b : Nat) (ha : a < m)
     (hb : b < n) :
     ((List.range m).flatMap fun a => (List.range n).map (e a))[a * n + b]? = some (e a b) := by
   induction m with
@@ -629,7 +629,7 @@ theorem cellAvgAt_reads_reshaped_matrix [Inhabited α] (half : α) (c : Nat → 
         (fun k => I[k]!) n]? = some (cellAvgAt half c F coords I i) := by
   rw [reshape_index_of_cond_lt n j _ i _ hji hin (fun k => I[k]!) hlj hli]
   unfold condMatrix
-  rw [flatMap_range_getElem? _ _ _ _ _ hIj hIi]
+  rw [flatMap_range_getElem_opt _ _ _ _ _ hIj hIi]
   simp [cellAvgAt, hc]
 
 /-- the 1-D buffer of an unconditional dimension (`upper - lower`, then `/ dx`) -/
